@@ -91,6 +91,7 @@ func run(t *rapid.T, r *rec.Recorder) {
 	acts["fundMoody"] = m.Wrap(m.ActFundMoody)
 	acts["toggleRoundTrip"] = m.Wrap(m.ActToggleRoundTrip)
 	acts["upgradeLower"] = m.Wrap(m.ActUpgradeLower)
+	acts["moveRelayerAddress"] = m.Wrap(m.ActMoveRelayerAddress)
 	recvFresh := func(t *rapid.T) {
 		m.T = t
 		type snap struct{ u0, u1 *big.Int }
